@@ -33,10 +33,10 @@ def make(ndim, stem=False, dtype=float):
 
 def axis_menu(n):
     return [0, -1, slice(None), slice(1, None), slice(None, None, 2), slice(None, None, -1), slice(0, 1), [0], [n - 1, 0],
-            slice(None, None, 3)]
+            slice(None, None, 3), np.int64(0), np.int32(n - 1)]
 
 
-N_MENU = 10
+N_MENU = 12
 
 
 def class_ok(ds):
@@ -115,7 +115,7 @@ def _indexing(ndim, ks, length, ell, stem):
     if not same(ds, before):
         return False                                  # source untouched
     full = {ax: e for ax, e in zip(axes, entries)}
-    kept = [ax for ax in range(ndim) if not isinstance(full.get(ax, slice(None)), int)]
+    kept = [ax for ax in range(ndim) if not isinstance(full.get(ax, slice(None)), (int, np.integer))]
     exp_origin = [10.0 * ax + 1 for ax in kept]
     exp_sampling = []
     for ax in kept:
@@ -216,7 +216,7 @@ def history(ndim: int, stem: bool, o1: int, a1: int, b1: int, i1: bool, o2: int,
     pre: 1 <= ndim <= 5 and 0 <= o1 <= N_OPS and 0 <= o2 <= N_OPS and 0 <= o3 <= N_OPS
     pre: 0 <= a1 <= 2 and 0 <= a2 <= 2 and 0 <= a3 <= 2 and 0 <= b1 <= 3 and 0 <= b2 <= 3 and 0 <= b3 <= 3
     pre: _fix("ndim", ndim) and _fix("stem", stem) and _fix("o1", o1) and _fix("o2", o2) and _fix("o3", o3)
-    pre: _fix("a2", a2) and _fix("a3", a3) and _fix("b3", b3) and _fix("i3", i3) and _fix("i2", i2) and _fix("b2", b2)
+    pre: _fix("a2", a2) and _fix("a3", a3) and _fix("b3", b3) and _fix("i3", i3) and _fix("i2", i2) and _fix("b2", b2) and _fix("i1", i1)
     post: __return__ == True
     """
     return _history(ndim, stem, [(o1, a1, b1, i1), (o2, a2, b2, i2), (o3, a3, b3, i3)])
@@ -225,14 +225,25 @@ def history(ndim: int, stem: bool, o1: int, a1: int, b1: int, i1: bool, o2: int,
 def _history(ndim, stem, ops):
     ndim = _pick([1, 2, 3, 4, 5], ndim - 1)
     ds = make(ndim, bool(stem))
+    earlier = []                       # (dataset that an operation returned a *new* dataset from, its snapshot)
     for (o, a, b, i) in ops:
         o = _pick(list(range(N_OPS + 1)), o)
         if o == N_OPS:
             continue
         a, b, i = _pick([0, 1, 2], a), _pick([0, 1, 2, 3], b), bool(i)
+        prev = ds
         ds, ok = step_ok(ds, o, a, b, i)
         if not ok:
             return False
+        if ds is not prev:
+            if o in (0, 4, 5, 6, 7, 8, 9, 10):
+                earlier.append((prev, prev.copy()))
+        elif not i and o in (4, 5, 6, 7, 8, 9, 10) and not any(s == 0 for s in prev.shape):
+            return False               # the copying variant must hand out a new object, not the source itself
+        # later operations (in place or not) on the result never reach back into an earlier source
+        for src, snap in earlier:
+            if src is not ds and not same(src, snap):
+                return False
     return True
 
 
